@@ -1228,8 +1228,8 @@ MUTANTS += [
  dict(name='benign-r1-C09-on-C10', prop='C10', benign=True, expect='', patch='selftest/fixes/benign-r1-C09.patch'),
  dict(name='benign-r1-C11', prop='C11', benign=True, expect='', patch='selftest/fixes/benign-r1-C11.patch'),
  dict(name='benign-r1-C11-on-C12', prop='C12', benign=True, expect='', patch='selftest/fixes/benign-r1-C11.patch'),
- dict(name='benign-r1-C12', prop='C12', benign='noverdict', expect='', patch='selftest/fixes/benign-r1-C12.patch'),
- dict(name='benign-r1-C12-on-C11', prop='C11', benign='noverdict', expect='', patch='selftest/fixes/benign-r1-C12.patch'),
+ dict(name='benign-r1-C12', prop='C12', benign=True, expect='', patch='selftest/fixes/benign-r1-C12.patch'),
+ dict(name='benign-r1-C12-on-C11', prop='C11', benign=True, expect='', patch='selftest/fixes/benign-r1-C12.patch'),
  dict(name='benign-r1-C14', prop='C14', benign=True, expect='', patch='selftest/fixes/benign-r1-C14.patch'),
  dict(name='benign-r1-C14-on-C11', prop='C11', benign=True, expect='', patch='selftest/fixes/benign-r1-C14.patch'),
  dict(name='benign-r1-C15', prop='C15', benign=True, expect='', patch='selftest/fixes/benign-r1-C15.patch'),
@@ -1451,4 +1451,56 @@ MUTANTS += [
             }
 
             if (b.is_zero()) {''')]),
+]
+
+# ---- benign-refactor round 4 (C02 C03 C04 C07 C10 C13 C16 C17 C19 C20; no helper extraction) and defective variants
+MUTANTS += [
+ dict(name='benign-r4-C02', prop='C02', benign=True, expect='', patch='selftest/fixes/benign-r4-C02.patch'),
+ dict(name='benign-r4-C02-on-C03', prop='C03', benign=True, expect='', patch='selftest/fixes/benign-r4-C02.patch'),
+ dict(name='benign-r4-C02-on-C10', prop='C10', benign=True, expect='', patch='selftest/fixes/benign-r4-C02.patch'),
+ dict(name='benign-r4-C03', prop='C03', benign=True, expect='', patch='selftest/fixes/benign-r4-C03.patch'),
+ dict(name='benign-r4-C03-on-C02', prop='C02', benign=True, expect='', patch='selftest/fixes/benign-r4-C03.patch'),
+ dict(name='benign-r4-C04', prop='C04', benign=True, expect='', patch='selftest/fixes/benign-r4-C04.patch'),
+ dict(name='benign-r4-C04-on-C18', prop='C18', benign=True, expect='', patch='selftest/fixes/benign-r4-C04.patch'),
+ dict(name='benign-r4-C07', prop='C07', benign=True, expect='', patch='selftest/fixes/benign-r4-C07.patch'),
+ dict(name='benign-r4-C07-on-C10', prop='C10', benign=True, expect='', patch='selftest/fixes/benign-r4-C07.patch'),
+ dict(name='benign-r4-C10', prop='C10', benign=True, expect='', patch='selftest/fixes/benign-r4-C10.patch'),
+ dict(name='benign-r4-C10-on-C02', prop='C02', benign=True, expect='', patch='selftest/fixes/benign-r4-C10.patch'),
+ dict(name='benign-r4-C10-on-C09', prop='C09', benign=True, expect='', patch='selftest/fixes/benign-r4-C10.patch'),
+ dict(name='benign-r4-C13', prop='C13', benign=True, expect='', patch='selftest/fixes/benign-r4-C13.patch'),
+ dict(name='benign-r4-C13-on-C14', prop='C14', benign=True, expect='', patch='selftest/fixes/benign-r4-C13.patch'),
+ dict(name='benign-r4-C16', prop='C16', benign=True, expect='', patch='selftest/fixes/benign-r4-C16.patch'),
+ dict(name='benign-r4-C16-on-C20', prop='C20', benign=True, expect='', patch='selftest/fixes/benign-r4-C16.patch'),
+ dict(name='benign-r4-C17', prop='C17', benign=True, expect='', patch='selftest/fixes/benign-r4-C17.patch'),
+ dict(name='benign-r4-C17-on-C15', prop='C15', benign=True, expect='', patch='selftest/fixes/benign-r4-C17.patch'),
+ dict(name='benign-r4-C19', prop='C19', benign=True, expect='', patch='selftest/fixes/benign-r4-C19.patch'),
+ dict(name='benign-r4-C19-on-C17', prop='C17', benign=True, expect='', patch='selftest/fixes/benign-r4-C19.patch'),
+ dict(name='benign-r4-C20', prop='C20', benign=True, expect='', patch='selftest/fixes/benign-r4-C20.patch'),
+ dict(name='benign-r4-C20-on-C01', prop='C01', benign=True, expect='', patch='selftest/fixes/benign-r4-C20.patch'),
+ dict(name='benign-r4-C02-inverse-loop-and', prop='C02', expect='fp_inverse', patch='selftest/fixes/benign-r4-C02.patch',
+      edits=[('include/core/fp_utils.hpp', 'while (!(u.is_one() || v.is_one())) {', 'while (!(u.is_one() && v.is_one())) {')]),
+ dict(name='benign-r4-C02-reduce-gt', prop='C02', expect='R-CANON', patch='selftest/fixes/benign-r4-C02.patch',
+      edits=[('include/core/fp.hpp', 'if (BigInt<bits>::compare(a, p) >= 0) {\n                this->val.subtract(a, p);', 'if (BigInt<bits>::compare(a, p) > 0) {\n                this->val.subtract(a, p);')]),
+ dict(name='benign-r4-C03-carry-arm-strict', prop='C03', expect='VIOLATION property=C03', patch='selftest/fixes/benign-r4-C03.patch',
+      edits=[('include/core/bigint.hpp', 'carry = (sum <= b.dwords[i]) ? 1 : 0;', 'carry = (sum < b.dwords[i]) ? 1 : 0;')]),
+ dict(name='benign-r4-C04-sqrt-arms-not-swapped', prop='C04', expect='sqrt|', patch='selftest/fixes/benign-r4-C04.patch',
+      edits=[('src/bls12_381/fq2.cpp', 'if (!alpha_is_minus_one) {', 'if (alpha_is_minus_one) {')]),
+ dict(name='benign-r4-C07-bit-zero-dropped', prop='C07', expect='R-POLY/exp', patch='selftest/fixes/benign-r4-C07.patch',
+      edits=[('src/bls12_381/fq12_cyclotomic.cpp', 'while (i >= 0) {', 'while (i > 0) {')]),
+ dict(name='benign-r4-C10-fq-random-accepts-modulus', prop='C10', expect='VIOLATION property=C10', patch='selftest/fixes/benign-r4-C10.patch',
+      edits=[('src/bls12_381/fq.cpp', 'if (BigInt<fq_bits>::compare(this->val, fq_modulus) < 0) {\n                break;', 'if (BigInt<fq_bits>::compare(this->val, fq_modulus) <= 0) {\n                break;')]),
+ dict(name='benign-r4-C13-skip-loop-passes-equal', prop='C13', expect='VIOLATION property=C13', patch='selftest/fixes/benign-r4-C13.patch',
+      edits=[('src/wkdibe/api.cpp', 'if (attrs->attrs[k].idx >= sk.b[i].idx) {', 'if (attrs->attrs[k].idx > sk.b[i].idx) {')]),
+ dict(name='benign-r4-C16-decrypt-encodes-own-point', prop='C16', expect='VIOLATION property=C16', patch='selftest/fixes/benign-r4-C16.patch',
+      edits=[('src/lqibe/api.cpp', 'buffer.rp.encode(rp);', 'buffer.rp.encode(rp); buffer.q.encode(sk.sq);')]),
+ dict(name='benign-r4-C19-marshal-arms-not-swapped', prop='C19', expect='VIOLATION property=C19', patch='selftest/fixes/benign-r4-C19.patch',
+      edits=[('src/wkdibe/wkdibe.cpp', '''    const Params* obj = reinterpret_cast<const Params*>(params);
+    if (!compressed) {
+        obj->marshal<false>(buffer);
+        return;''', '''    const Params* obj = reinterpret_cast<const Params*>(params);
+    if (compressed) {
+        obj->marshal<false>(buffer);
+        return;''')]),
+ dict(name='benign-r4-C20-exp-by-x-top-bit-dropped', prop='C01', expect='R-POLY/exp', patch='selftest/fixes/benign-r4-C20.patch',
+      edits=[('src/bls12_381/pairing.cpp', 'unsigned int i = bls_x_highest_set_bit + 1;', 'unsigned int i = bls_x_highest_set_bit;')]),
 ]
